@@ -236,6 +236,17 @@ pub fn oracle_multisource(w: &mut Worker, case: &Case) -> Vec<Violation> {
         }
         return v;
     }
+    if case.name.contains("broken-winner") {
+        // the pipeline stops at the first failing step, so run the model (single-source) compile alone
+        w.stats.nontrivial.insert(rng::hash_bytes(case.name.as_bytes()));
+        let model = w.run_step_after_golden(case, &outs, first + 1);
+        if !model.ok() && multi.ok() {
+            v.push(Violation { class: "model:broken-winner-skipped".into(), detail: format!("{}: compiling with only the last supplying source fails ({}), but with all sources it exits 0", case.name, short(&model.stderr, 160)) });
+        } else {
+            w.stats.probe("multisource:broken-winner-fails-or-is-readable");
+        }
+        return v;
+    }
     if !multi.ok() {
         v.push(Violation { class: "model:multi-source-compile-failed".into(), detail: format!("{}: {}", case.name, short(&multi.stderr, 300)) });
         return v;
@@ -339,8 +350,8 @@ pub fn big_texture_case(seed: u64) -> Case {
     Case {
         property: "C17".into(),
         oracle: "extract-roundtrip".into(),
-        name: "generated-big th12 fmt=1 64x64+0+0".into(),
-        inputs: vec![Input::tree("map/"), Input::text("gen.spec", &gen_spec(1, 0, 0, 1)), Input::bytes(&format!("gen/{}", PATH), png)],
+        name: "generated-big th12 fmt=1 64x64+0+0 entries=2".into(),
+        inputs: vec![Input::tree("map/"), Input::text("gen.spec", &gen_spec(1, 0, 0, 2)), Input::bytes(&format!("gen/{}", PATH), png)],
         steps,
         meta: json!({"first": 1, "item": "generated"}),
     }
@@ -366,18 +377,31 @@ pub fn multisource_cases(seed: u64, n: u64) -> Vec<Case> {
         let pool = ["dirA", "dirB", "srcC.anm", "dirE", "dirO", "dirL", "dirM"];
         let k = rng.range(1, 3) as usize;
         let mut order: Vec<&str> = vec![];
+        if rng.chance(1, 4) {
+            // one source named twice with another supplier in between, the second mention possibly
+            // under another spelling (./x, x/, through the directory link): the LAST mention counts
+            let (x, aliases): (&str, &[&str]) = *rng.pick(&[("dirA", &["dirA", "./dirA", "dirA/", "dirM", "dirE/../dirA"][..]), ("dirB", &["dirB", "./dirB", "dirB/"][..]), ("srcC.anm", &["srcC.anm", "./srcC.anm"][..])]);
+            let mid = *rng.pick(&["dirA", "dirB", "srcC.anm"]);
+            order = vec![x, mid, *rng.pick(aliases)];
+        }
         while order.len() < k {
             let c = *rng.pick(&pool);
             if !order.contains(&c) || rng.chance(1, 6) {
                 order.push(c);
             }
         }
-        // a link supplies what its target supplies: the model source for dirL is dirB, for dirM dirA
-        let supplier = order.iter().rev().find(|x| ["dirA", "dirB", "srcC.anm", "dirL", "dirM"].contains(x)).map(|x| match *x {
-            "dirL" => "dirB",
-            "dirM" => "dirA",
-            o => o,
-        });
+        // a link supplies what its target supplies: the model source for dirL is dirB, for dirM dirA;
+        // other spellings of a path name the same source
+        let canon = |x: &str| -> &'static str {
+            match x.trim_start_matches("./").trim_end_matches('/') {
+                "dirA" | "dirM" | "dirE/../dirA" => "dirA",
+                "dirB" | "dirL" => "dirB",
+                "srcC.anm" => "srcC.anm",
+                "dirE" => "dirE",
+                _ => "dirO",
+            }
+        };
+        let supplier = order.iter().rev().map(|x| canon(x)).find(|x| ["dirA", "dirB", "srcC.anm"].contains(x));
         // the first n_pragma sources of the ordering are given as `#pragma image_source` lines in a copy
         // of the script (sources named in the file precede the ones on the command line), the rest by -i
         let n_pragma = if rng.chance(1, 3) { rng.below(order.len() as u64 + 1) as usize } else { 0 };
@@ -402,7 +426,20 @@ pub fn multisource_cases(seed: u64, n: u64) -> Vec<Case> {
             Some(sup) => steps.push(Step::new(vec![s("truanm"), s("compile"), s("-g"), s(game), s("gen.spec"), s("-i"), s(sup), s("-o"), s("model.anm")])),
             None => meta["expect_fail"] = json!(true),
         }
-        out.push(Case { property: "C17".into(), oracle: "multisource".into(), name: format!("multisource#{} fmt={} {}x{} order={:?} pragmas={}", idx, format, w, h, order, n_pragma), inputs, steps, meta });
+        // initial-state variation: the image file of the winning directory is empty or cut short (as an
+        // interrupted extraction leaves it).  The last supplier still "wins": the compile must fail as
+        // it does with that source alone, not quietly fall back to an earlier source.
+        let mut name = format!("multisource#{} fmt={} {}x{} order={:?} pragmas={}", idx, format, w, h, order, n_pragma);
+        if let Some(sup) = supplier {
+            if sup != "srcC.anm" && rng.chance(1, 5) {
+                let cut = if rng.chance(1, 2) { 0 } else { rng.range(1, 40) as usize };
+                if let Some(inp) = inputs.iter_mut().find(|i| i.path == format!("{}/{}", sup, PATH)) {
+                    inp.corrupt.push(crate::case::CorruptOp::Trunc { at: cut });
+                    name.push_str(&format!(" broken-winner(trunc@{})", cut));
+                }
+            }
+        }
+        out.push(Case { property: "C17".into(), oracle: "multisource".into(), name, inputs, steps, meta });
     }
     out
 }
@@ -479,6 +516,10 @@ pub fn run(ctx: &Ctx) -> CheckResult {
         let seed = rng::mix(ctx.seed, &base.name, 17);
         jobs.push(FaultJob { base: base.clone(), step: first + 1, space: FaultSpace { read_side: false, write_side: true, meta_side: true, budgets: if quick { Budgets::BoundariesPlus(10) } else { Budgets::BoundariesPlus(200) }, seed }, noise: true, max_variants: if quick { 150 } else { 0 } });
         jobs.push(FaultJob { base, step: first + 2, space: FaultSpace { read_side: true, write_side: true, meta_side: true, budgets: Budgets::Boundaries, seed }, noise: true, max_variants: if quick { 160 } else { 0 } });
+    }
+    for c in cases.iter().filter(|c| c.oracle == "multisource" && !c.name.contains("broken-winner") && c.name.contains("\", \"")).take(if quick { 6 } else { 120 }) {
+        let seed = rng::mix(ctx.seed, &c.name, 18);
+        jobs.push(FaultJob { base: c.clone(), step: 1, space: FaultSpace { read_side: true, write_side: false, meta_side: true, budgets: Budgets::Boundaries, seed }, noise: true, max_variants: if quick { 60 } else { 0 } });
     }
     let camp = run_fault_campaign(ctx, &jobs);
     stats.merge(camp.stats);
